@@ -1612,6 +1612,17 @@ Definition mk_spec (pp : path) (nm : name) (mk : real -> M real) (cleaf : state 
                           upper s1 = Some U1 /\ lowers s1 = lowers s /\ root s1 = root s
     | Err _ => exists e s1, mk pr s = (Err e, s1) /\ upper s1 = upper s /\ lowers s1 = lowers s /\ root s1 = root s
     end.
+(* the same, for upper layers satisfying Q only *)
+Definition mk_spec_on (Q : tree -> Prop) (pp : path) (nm : name) (mk : real -> M real) (cleaf : state -> tree) : Prop :=
+  forall pr s U, Q U -> r_upper pr = true -> r_layer pr = 0%nat -> r_path pr = pp -> upper s = Some U ->
+    (is_dirT (cleaf s) = false /\ is_whT (cleaf s) = false /\ wf (cleaf s) /\ (forall k r, tget (cleaf s) (k :: r) = None)) /\
+    match h_insert pp nm (cleaf s) U with
+    | Ok U1 => exists s1, mk pr s = (Ok (mkReal 0 true (pp ++ [nm]) false false false), s1) /\
+                          upper s1 = Some U1 /\ lowers s1 = lowers s /\ root s1 = root s
+    | Err _ => exists e s1, mk pr s = (Err e, s1) /\ upper s1 = upper s /\ lowers s1 = lowers s /\ root s1 = root s
+    end.
+Lemma mk_spec_any Q pp nm mk cleaf : mk_spec pp nm mk cleaf -> mk_spec_on Q pp nm mk cleaf.
+Proof. intros H pr s U _. apply H. Qed.
 Lemma mk_spec_create pp nm mode : mk_spec pp nm (fun pr => ri_create pr nm mode) (fun s => File (next_ino s) (N.land mode 4095) [] []).
 Proof.
   intros pr s U Hu Hl Hp HU. split; [repeat split; constructor|].
@@ -1636,8 +1647,8 @@ Definition make_tail (pp : path) (nm : name) (mk : real -> M real) (pr : real) (
     ((if delw then delete_whiteout_ignored pr nm else ret tt);;; (ri <- mk pr;; mod_node (pp ++ [nm]) (add_upper ri true)))
   else (ri <- mk pr;; insert_child pp nm (new_node ri)).
 
-Lemma make_tail_coherent s2 (pp : path) (nm : name) mk cleaf pr prs pn2 u2 m x ch rest delw existing r s' :
-  mk_spec pp nm mk cleaf ->
+Lemma make_tail_coherent Q s2 (pp : path) (nm : name) mk cleaf pr prs pn2 u2 m x ch rest delw existing r s' :
+  mk_spec_on Q pp nm mk cleaf -> Q u2 -> (afind nm ch = Some Wh -> Q (tupd pp (dir_del nm) u2)) ->
   Coherent s2 -> upper s2 = Some u2 -> tget u2 pp = Some (Dir m x ch) ->
   nget pp (root s2) = Some pn2 -> n_reals pn2 = pr :: prs -> r_upper pr = true -> r_layer pr = 0%nat -> r_path pr = pp ->
   n_loaded pn2 = true -> lstack (shp s2) (List.length (lowers s2)) pp = 0%nat :: rest ->
@@ -1651,7 +1662,7 @@ Lemma make_tail_coherent s2 (pp : path) (nm : name) mk cleaf pr prs pn2 u2 m x c
   end ->
   make_tail pp nm mk pr delw existing s2 = (r, s') -> Coherent s'.
 Proof.
-  intros MK HC2 Hu2 Etg Hg2 Epr Hpu Hl0 Hpp Hld2 Hstk Hex Hcase Hrun.
+  intros MK HQ HQw HC2 Hu2 Etg Hg2 Epr Hpu Hl0 Hpp Hld2 Hstk Hex Hcase Hrun.
   pose proof HC2 as (_ & Hwl2 & HCT2).
   set (delw' := if existing then delw else false).
   set (Ua := if delw' then tupd pp (dir_del nm) u2 else u2).
@@ -1673,7 +1684,12 @@ Proof.
     - assert (E : (if existing then delw else false) = false) by (destruct existing, delw; try reflexivity; destruct Hcase; discriminate).
       rewrite E. exists s2. cbn [ret]. repeat split; auto. }
   destruct Hs3 as (s3 & E3 & Hu3 & Hl3 & Hr3 & Hn3 & Etg3 & Enm3).
-  destruct (MK pr s3 Ua Hpu Hl0 Hpp Hu3) as ((Cd & Cw & Cwf & Cleaf) & Hmk).
+  assert (HQa : Q Ua).
+  { unfold Ua, delw'. destruct (afind nm ch) as [[| | |]|] eqn:Enm; try contradiction.
+    - destruct Hcase as [-> ->]. apply HQw. reflexivity.
+    - assert (E : (if existing then delw else false) = false) by (destruct existing, delw; try reflexivity; destruct Hcase; discriminate).
+      rewrite E. exact HQ. }
+  destruct (MK pr s3 Ua HQa Hpu Hl0 Hpp Hu3) as ((Cd & Cw & Cwf & Cleaf) & Hmk).
   unfold h_insert in Hmk. rewrite Etg3, Enm3 in Hmk. destruct Hmk as (s4 & E4 & Hu4 & Hl4 & Hr4).
   set (c := cleaf s3) in *. set (ri := mkReal 0 true (pp ++ [nm]) false false false) in *.
   set (G := fun l : list (name * tree) => aset nm c ((if delw' then adel nm else (fun y => y)) l)).
@@ -1729,47 +1745,43 @@ Qed.
 Definition make_rest (pp : path) (nm : name) (mk : real -> M real) (delw existing : bool) : M unit :=
   copy_node_up pp;;; pn' <- get_node pp;; pr <- upper_real pn' EINVAL;; make_tail pp nm mk pr delw existing.
 
-Lemma make_rest_coherent (pp : path) (nm : name) mk cleaf delw existing s1 pn1 r s' :
-  mk_spec pp nm mk cleaf -> Coherent s1 -> nget pp (root s1) = Some pn1 -> n_wh pn1 = false ->
-  (n_loaded pn1 = true \/ first_dir (n_reals pn1) = false) ->
+Definition make_body (pp : path) (nm : name) (mk : real -> M real) (delw existing : bool) : M unit :=
+  pn' <- get_node pp;; pr <- upper_real pn' EINVAL;; make_tail pp nm mk pr delw existing.
+Lemma make_body_coherent Q (pp : path) (nm : name) mk cleaf delw existing s2 pn2 r s' :
+  mk_spec_on Q pp nm mk cleaf -> Coherent s2 -> nget pp (root s2) = Some pn2 -> in_upper pn2 = true ->
+  (n_loaded pn2 = true \/ first_dir (n_reals pn2) = false) ->
   (match existing return Prop with
-   | true => exists c, afind nm (n_ch pn1) = Some c /\ n_wh c = true /\ delw = in_upper c
-   | false => afind nm (n_ch pn1) = None end) ->
-  make_rest pp nm mk delw existing s1 = (r, s') -> Coherent s'.
+   | true => exists c, afind nm (n_ch pn2) = Some c /\ n_wh c = true /\ delw = in_upper c
+   | false => afind nm (n_ch pn2) = None end) ->
+  (forall u2, upper s2 = Some u2 -> Q u2 /\ (forall m x ch, tget u2 pp = Some (Dir m x ch) -> afind nm ch = Some Wh -> Q (tupd pp (dir_del nm) u2))) ->
+  make_body pp nm mk delw existing s2 = (r, s') -> Coherent s'.
 Proof.
-  intros MK HC1 Hg1 Hw1 Hld1 Hchild Hrun. unfold make_rest in Hrun.
-  unfold bind at 1 in Hrun. destruct (copy_node_up pp s1) as [rc s2] eqn:Ecu.
-  destruct (cnu_coherent pp s1 rc s2 HC1) as (HC2 & SP2 & Hl2 & Fr2 & Hup2); [intros n0 Hn0; rewrite Hg1 in Hn0; inversion Hn0; subst; exact Hw1|exact Ecu|].
-  destruct rc as [[]|e]; [|inversion Hrun; subst; exact HC2]. specialize (Hup2 eq_refl).
-  unfold bind at 1 in Hrun. unfold get_node at 1 in Hrun.
-  destruct (same_paths_some s1 s2 pp pn1 SP2 Hg1) as (pn2 & Hg2 & Hsig2). rewrite Hg2 in Hrun.
-  pose proof (Hup2 pn2 Hg2) as Hpu. unfold in_upper in Hpu. unfold bind at 1 in Hrun. unfold upper_real in Hrun.
+  intros MK HC2 Hg2 Hiu Hld1 Hchild HQ Hrun. unfold make_body in Hrun.
+  unfold bind at 1 in Hrun. unfold get_node at 1 in Hrun. rewrite Hg2 in Hrun.
+  pose proof Hiu as Hpu. unfold in_upper in Hpu. unfold bind at 1 in Hrun. unfold upper_real in Hrun.
   destruct (n_reals pn2) as [|pr prs] eqn:Epr; [discriminate|]. rewrite Hpu in Hrun. cbn [ret] in Hrun.
   pose proof HC2 as ([u2 Hu2] & Hwl2 & HCT2). pose proof (HCT2 pp pn2 Hg2) as Npn2. cbn [app] in Npn2.
   destruct (first_upper_stack s2 pp pn2 pr prs Npn2 Epr Hpu) as (Hl0 & Hpp & rest & Hstk).
-  assert (Hq2 : nget (pp ++ [nm]) (root s2) = nget (pp ++ [nm]) (root s1)) by (apply Fr2; apply not_prefix_snoc).
   assert (Hrg : rgood (shp s2) pp pr) by (pose proof (ok_reals _ _ _ _ Npn2) as G; rewrite Epr in G; exact (Forall_inv G)).
-  assert (Hchild2 : forall c, afind nm (n_ch pn1) = Some c -> afind nm (n_ch pn2) = Some c).
-  { intros c Hc. pose proof (nget_snoc pp nm (root s1) pn1 c Hg1 Hc) as Hqc. rewrite <- Hq2 in Hqc.
-    exact (nget_child pp nm (root s2) pn2 c Hg2 Hqc). }
+  assert (Hchild2 : forall c, afind nm (n_ch pn2) = Some c -> afind nm (n_ch pn2) = Some c) by auto.
+  destruct (HQ u2 Hu2) as [HQ1 HQ2].
   destruct (tget u2 pp) as [[m x ch| | |]|] eqn:Etg.
   - pose proof (sh_dir_of_tget s2 u2 pp m x ch Hu2 Etg) as Hpd.
     assert (Hfd2 : first_dir (n_reals pn2) = true).
     { destruct Hrg as (_ & _ & Hs). rewrite Hl0, Hpd in Hs. rewrite Epr. cbn. tauto. }
     assert (Hld2 : n_loaded pn2 = true).
-    { unfold nsig in Hsig2. inversion Hsig2 as [[A B]]. rewrite A. destruct Hld1 as [H|H]; [exact H|]. congruence. }
+    { destruct Hld1 as [H|H]; [exact H|]. congruence. }
     destruct (ok_ld _ _ _ _ Npn2 Hld2) as (_ & _ & Kids).
     assert (Hag0 : forall i p', ~ is_prefix (pp ++ [nm]) p' -> shp s2 i p' = shp s2 i p') by reflexivity.
     pose proof (kids_old (shp s2) (shp s2) (List.length (lowers s2)) pp nm Hag0 (fun j p' => eq_refl) rest _ Hstk Hpd) as Ko.
-    apply (make_tail_coherent s2 pp nm mk cleaf pr prs pn2 u2 m x ch rest delw existing r s' MK HC2 Hu2 Etg Hg2 Epr Hpu Hl0 Hpp Hld2 Hstk); [| |exact Hrun].
+    apply (make_tail_coherent Q s2 pp nm mk cleaf pr prs pn2 u2 m x ch rest delw existing r s' MK HQ1 (HQ2 m x ch eq_refl) HC2 Hu2 Etg Hg2 Epr Hpu Hl0 Hpp Hld2 Hstk); [| |exact Hrun].
     + destruct existing.
       * destruct Hchild as (c & Hc & Hwc & _). exists c. split; [apply Hchild2; exact Hc|].
         pose proof (nget_snoc pp nm (root s2) pn2 c Hg2 (Hchild2 c Hc)) as Hqc. pose proof (HCT2 _ _ Hqc) as Nc. cbn [app] in Nc.
         destruct (first_good_stat s2 _ _ c Nc) as (rw & rws & tw & Erw & _ & Hstw & Hwt & _ & _).
         apply (unloaded_nondir s2 _ c tw Nc Hstw).
         pose proof (ok_wh _ _ _ _ Nc) as W. rewrite Erw in W. cbn in W. rewrite Hwc in W. rewrite <- W in Hwt. destruct tw; try discriminate; reflexivity.
-      * destruct (afind nm (n_ch pn2)) as [c2|] eqn:E2; [|reflexivity].
-        pose proof (nget_snoc pp nm (root s2) pn2 c2 Hg2 E2) as H2. rewrite Hq2, (nget_snoc_none pp nm (root s1) pn1 Hg1 Hchild) in H2. discriminate.
+      * exact Hchild.
     + destruct existing.
       * destruct Hchild as (c & Hc & Hwc & ->).
         pose proof (nget_snoc pp nm (root s2) pn2 c Hg2 (Hchild2 c Hc)) as Hqc. pose proof (HCT2 _ _ Hqc) as Nc. cbn [app] in Nc.
@@ -1788,9 +1800,7 @@ Proof.
            assert (Hp0 : present (shp s2) (pp ++ [nm]) 0%nat = true).
            { unfold present, shp, ent. cbn [get_layer]. rewrite Hu2, (tget_snoc u2 pp nm), Etg, Ey. reflexivity. }
            rewrite Hp0 in Hh. cbn in Hh. inversion Hh. congruence.
-      * assert (Hn2 : afind nm (n_ch pn2) = None).
-        { destruct (afind nm (n_ch pn2)) as [c2|] eqn:E2; [|reflexivity].
-          pose proof (nget_snoc pp nm (root s2) pn2 c2 Hg2 E2) as H2. rewrite Hq2, (nget_snoc_none pp nm (root s1) pn1 Hg1 Hchild) in H2. discriminate. }
+      * assert (Hn2 : afind nm (n_ch pn2) = None) by exact Hchild.
         apply Kids in Hn2. rewrite Ko in Hn2. apply app_eq_nil in Hn2. destruct Hn2 as [Hp0 _].
         destruct (afind nm ch) as [y|] eqn:Ey; [|auto].
         exfalso. assert (Hp1 : present (shp s2) (pp ++ [nm]) 0%nat = true).
@@ -1804,7 +1814,7 @@ Proof.
       destruct Hrg as (_ & _ & Hs). rewrite Hl0 in Hs. unfold shp, ent in Hs. cbn [get_layer] in Hs. rewrite Hu2, Etg in Hs. cbn in Hs.
       destruct Hs as (_ & Hd & _). congruence. }
     subst existing. unfold make_tail in Hrun. unfold bind at 1 in Hrun.
-    destruct (MK pr s2 u2 Hpu Hl0 Hpp Hu2) as (_ & Hmk). unfold h_insert in Hmk. rewrite Etg in Hmk.
+    destruct (MK pr s2 u2 HQ1 Hpu Hl0 Hpp Hu2) as (_ & Hmk). unfold h_insert in Hmk. rewrite Etg in Hmk.
     destruct Hmk as (e & s3 & E3 & A & B & C). rewrite E3 in Hrun. inversion Hrun; subst.
     exact (coherent_same_disk s2 s' A B C HC2).
   - assert (Hne : existing = false).
@@ -1815,7 +1825,7 @@ Proof.
       destruct Hrg as (_ & _ & Hs). rewrite Hl0 in Hs. unfold shp, ent in Hs. cbn [get_layer] in Hs. rewrite Hu2, Etg in Hs. cbn in Hs.
       destruct Hs as (_ & Hd & _). congruence. }
     subst existing. unfold make_tail in Hrun. unfold bind at 1 in Hrun.
-    destruct (MK pr s2 u2 Hpu Hl0 Hpp Hu2) as (_ & Hmk). unfold h_insert in Hmk. rewrite Etg in Hmk.
+    destruct (MK pr s2 u2 HQ1 Hpu Hl0 Hpp Hu2) as (_ & Hmk). unfold h_insert in Hmk. rewrite Etg in Hmk.
     destruct Hmk as (e & s3 & E3 & A & B & C). rewrite E3 in Hrun. inversion Hrun; subst.
     exact (coherent_same_disk s2 s' A B C HC2).
   - assert (Hne : existing = false).
@@ -1826,10 +1836,37 @@ Proof.
       destruct Hrg as (_ & _ & Hs). rewrite Hl0 in Hs. unfold shp, ent in Hs. cbn [get_layer] in Hs. rewrite Hu2, Etg in Hs. cbn in Hs.
       destruct Hs as (_ & Hd & _). congruence. }
     subst existing. unfold make_tail in Hrun. unfold bind at 1 in Hrun.
-    destruct (MK pr s2 u2 Hpu Hl0 Hpp Hu2) as (_ & Hmk). unfold h_insert in Hmk. rewrite Etg in Hmk.
+    destruct (MK pr s2 u2 HQ1 Hpu Hl0 Hpp Hu2) as (_ & Hmk). unfold h_insert in Hmk. rewrite Etg in Hmk.
     destruct Hmk as (e & s3 & E3 & A & B & C). rewrite E3 in Hrun. inversion Hrun; subst.
     exact (coherent_same_disk s2 s' A B C HC2).
   - exfalso. destruct Hrg as (_ & _ & Hs). rewrite Hl0 in Hs. unfold shp, ent in Hs. cbn [get_layer] in Hs. rewrite Hu2, Etg in Hs. exact Hs.
+Qed.
+
+
+Lemma make_rest_coherent (pp : path) (nm : name) mk cleaf delw existing s1 pn1 r s' :
+  mk_spec pp nm mk cleaf -> Coherent s1 -> nget pp (root s1) = Some pn1 -> n_wh pn1 = false ->
+  (n_loaded pn1 = true \/ first_dir (n_reals pn1) = false) ->
+  (match existing return Prop with
+   | true => exists c, afind nm (n_ch pn1) = Some c /\ n_wh c = true /\ delw = in_upper c
+   | false => afind nm (n_ch pn1) = None end) ->
+  make_rest pp nm mk delw existing s1 = (r, s') -> Coherent s'.
+Proof.
+  intros MK HC1 Hg1 Hw1 Hld1 Hchild Hrun. unfold make_rest in Hrun.
+  unfold bind at 1 in Hrun. destruct (copy_node_up pp s1) as [rc s2] eqn:Ecu.
+  destruct (cnu_coherent pp s1 rc s2 HC1) as (HC2 & SP2 & Hl2 & Fr2 & Hup2); [intros n0 Hn0; rewrite Hg1 in Hn0; inversion Hn0; subst; exact Hw1|exact Ecu|].
+  destruct rc as [[]|e]; [|inversion Hrun; subst; exact HC2]. specialize (Hup2 eq_refl).
+  destruct (same_paths_some s1 s2 pp pn1 SP2 Hg1) as (pn2 & Hg2 & Hsig2).
+  assert (Hq2 : nget (pp ++ [nm]) (root s2) = nget (pp ++ [nm]) (root s1)) by (apply Fr2; apply not_prefix_snoc).
+  unfold nsig in Hsig2. injection Hsig2 as A B.
+  apply (make_body_coherent (fun _ => True) pp nm mk cleaf delw existing s2 pn2 r s' (mk_spec_any _ pp nm mk cleaf MK) HC2 Hg2 (Hup2 pn2 Hg2)); [| | |exact Hrun].
+  - rewrite A, B. exact Hld1.
+  - destruct existing.
+    + destruct Hchild as (c & Hc & Hwc & Hd). exists c. split; [|auto].
+      pose proof (nget_snoc pp nm (root s1) pn1 c Hg1 Hc) as Hqc. rewrite <- Hq2 in Hqc.
+      exact (nget_child pp nm (root s2) pn2 c Hg2 Hqc).
+    + destruct (afind nm (n_ch pn2)) as [c2|] eqn:E2; [|reflexivity].
+      pose proof (nget_snoc pp nm (root s2) pn2 c2 Hg2 E2) as H2. rewrite Hq2, (nget_snoc_none pp nm (root s1) pn1 Hg1 Hchild) in H2. discriminate.
+  - intros u2 _. split; [exact I|]. intros; exact I.
 Qed.
 
 Lemma cpres_do_make (pp : path) (nm : name) mk cleaf : mk_spec pp nm mk cleaf -> cpres (do_make pp nm mk).
@@ -2950,4 +2987,282 @@ Lemma cpres_rmdir p : cpres (step (ORmdir p)).
 Proof.
   cbn [step]. apply cpres_with_parent. intros pp nm.
   apply cpres_bind; [apply cpres_do_rm|]. intros _. apply cpres_ret.
+Qed.
+
+(* ------------------------------------------------------------------ what copy-up keeps of every cached node (no invariant needed):
+   a property of the backing inodes and the whiteout flag that add_upper_inode of a fresh upper inode establishes *)
+Definition goodri (ri : real) : Prop := r_wh ri = false /\ r_upper ri = true.
+Section RR.
+Variable P : node -> Prop.
+Hypothesis Hadd : forall ri c m, goodri ri -> P (add_upper ri c m).
+Hypothesis Hch : forall a b, n_reals a = n_reals b -> n_wh a = n_wh b -> P a -> P b.
+
+Lemma nget_nupd_P f p : (forall m, n_ch (f m) = n_ch m) -> (forall m, P (f m)) ->
+  forall r q n, nget q r = Some n -> P n -> exists n', nget q (nupd p f r) = Some n' /\ P n'.
+Proof.
+  intros Hc Hf. induction p as [|c p IH]; intros r q n Hq HP; cbn [nupd].
+  - destruct q as [|k q]; cbn [nget] in *.
+    + inversion Hq; subst. exists (f n). auto.
+    + rewrite Hc. exists n. auto.
+  - destruct q as [|k q]; cbn [nget n_ch] in *.
+    + inversion Hq; subst. eexists. split; [reflexivity|]. apply (Hch n); [reflexivity|reflexivity|exact HP].
+    + destruct (String.eqb c k) eqn:E.
+      * apply String.eqb_eq in E; subst k. rewrite afind_amap. destruct (afind c (n_ch r)) as [y|]; [|discriminate]. cbn [option_map].
+        apply (IH y q n Hq HP).
+      * rewrite (afind_amap_other _ _ _ _ E). exists n. auto.
+Qed.
+
+Definition rr (s s' : state) : Prop := forall q n, nget q (root s) = Some n -> P n -> exists n', nget q (root s') = Some n' /\ P n'.
+Lemma rr_root s s' : root s' = root s -> rr s s'.
+Proof. intros H q n Hq HP. rewrite H. eauto. Qed.
+Lemma rr_trans a b c : rr a b -> rr b c -> rr a c.
+Proof. intros H1 H2 q n Hq HP. destruct (H1 q n Hq HP) as (n1 & A & B). exact (H2 q n1 A B). Qed.
+Definition rrm {A} (m : M A) (post : A -> Prop) : Prop := forall s, rr s (snd (m s)) /\ forall a, fst (m s) = Ok a -> post a.
+Lemma rrm_bind {A B} (m : M A) (f : A -> M B) post1 post2 :
+  rrm m post1 -> (forall a, post1 a -> rrm (f a) post2) -> rrm (bind m f) post2.
+Proof.
+  intros Hm Hf s. unfold bind. destruct (Hm s) as [R1 Q1]. destruct (m s) as [[a|e] s1]; cbn [fst snd] in *.
+  - destruct (Hf a (Q1 a eq_refl) s1) as [R2 Q2]. split; [exact (rr_trans _ _ _ R1 R2)|exact Q2].
+  - split; [exact R1|intros a H; discriminate].
+Qed.
+Lemma rrm_root {A} (m : M A) (post : A -> Prop) :
+  (forall s, root (snd (m s)) = root s) -> (forall s a, fst (m s) = Ok a -> post a) -> rrm m post.
+Proof. intros H1 H2 s. split; [apply rr_root; apply H1|apply H2]. Qed.
+Lemma rrm_T {A} (m : M A) : (forall s, root (snd (m s)) = root s) -> rrm m (fun _ => True).
+Proof. intros H. apply rrm_root; [exact H|auto]. Qed.
+Lemma rrm_if {A} (b : bool) (m1 m2 : M A) post : rrm m1 post -> rrm m2 post -> rrm (if b then m1 else m2) post.
+Proof. destruct b; auto. Qed.
+Lemma rrm_fail {A} e post : rrm (@fail A e) post.
+Proof. apply rrm_root; [reflexivity|]. intros s a H. discriminate. Qed.
+Lemma rrm_ret {A} (a : A) (post : A -> Prop) : post a -> rrm (ret a) post.
+Proof. intros H. apply rrm_root; [reflexivity|]. intros s b E. cbn in E. inversion E; subst. exact H. Qed.
+Lemma rrm_get_node p : rrm (get_node p) (fun _ => True).
+Proof. apply rrm_T. intros s. unfold get_node. destruct (nget p (root s)); reflexivity. Qed.
+Lemma rrm_stat_node n : rrm (stat_node n) (fun _ => True).
+Proof. apply rrm_T. intros s. unfold stat_node. destruct (node_stat s n); reflexivity. Qed.
+Lemma rrm_first_real n : rrm (first_real n) (fun _ => True).
+Proof. apply rrm_T. intros s. unfold first_real. destruct (n_reals n); reflexivity. Qed.
+Lemma rrm_upper_real n e : rrm (upper_real n e) (fun r => r_upper r = true).
+Proof.
+  intros s. unfold upper_real. destruct (n_reals n) as [|r rs]; [split; [apply rr_root; reflexivity|intros a H; discriminate]|].
+  destruct (r_upper r) eqn:E; (split; [apply rr_root; reflexivity|]); intros a H; cbn in H; inversion H; subst; exact E.
+Qed.
+Lemma mutate_root k F s : root (snd (mutate k F s)) = root s.
+Proof. unfold mutate. destruct (get_layer s k) as [t|]; [|reflexivity]. destruct (F t); [|reflexivity]. destruct k; reflexivity. Qed.
+Lemma rrm_mutate k F : rrm (mutate k F) (fun _ => True).
+Proof. apply rrm_T. apply mutate_root. Qed.
+Lemma rrm_mod_add p ri c : goodri ri -> rrm (mod_node p (add_upper ri c)) (fun _ => True).
+Proof.
+  intros Hg s. split; [|auto]. unfold mod_node. cbn [snd root]. intros q n Hq HP.
+  apply (nget_nupd_P (add_upper ri c) p (fun m => eq_refl) (fun m => Hadd ri c m Hg) (root s) q n Hq HP).
+Qed.
+Lemma rrm_ri_mkdir pr nm mode : rrm (ri_mkdir pr nm mode) goodri.
+Proof.
+  unfold ri_mkdir, ri_guard. apply rrm_bind with (post1 := fun _ => r_upper pr = true).
+  - destruct (r_upper pr); [apply rrm_ret; reflexivity|apply rrm_fail].
+  - intros _ Hu. apply rrm_bind with (post1 := fun _ => True); [apply rrm_mutate|]. intros _ _. apply rrm_ret. split; reflexivity.
+Qed.
+Lemma rrm_ri_create pr nm mode : rrm (ri_create pr nm mode) goodri.
+Proof.
+  unfold ri_create, ri_guard. apply rrm_bind with (post1 := fun _ => r_upper pr = true).
+  - destruct (r_upper pr); [apply rrm_ret; reflexivity|apply rrm_fail].
+  - intros _ Hu. apply rrm_bind with (post1 := fun _ => True); [apply rrm_T; reflexivity|]. intros i _.
+    apply rrm_bind with (post1 := fun _ => True); [apply rrm_mutate|]. intros _ _. apply rrm_ret. split; reflexivity.
+Qed.
+Lemma rrm_ri_symlink pr nm tg : rrm (ri_symlink pr nm tg) goodri.
+Proof.
+  unfold ri_symlink, ri_guard. apply rrm_bind with (post1 := fun _ => r_upper pr = true).
+  - destruct (r_upper pr); [apply rrm_ret; reflexivity|apply rrm_fail].
+  - intros _ Hu. apply rrm_bind with (post1 := fun _ => True); [apply rrm_mutate|]. intros _ _. apply rrm_ret. split; [reflexivity|exact Hu].
+Qed.
+Lemma rrm_cud fuel : forall p, rrm (create_upper_dir fuel p) (fun _ => True).
+Proof.
+  induction fuel as [|f IH]; intros p; cbn [create_upper_dir]; [apply rrm_fail|].
+  apply rrm_bind with (post1 := fun _ => True); [apply rrm_get_node|]. intros n _.
+  apply rrm_bind with (post1 := fun _ => True); [apply rrm_stat_node|]. intros st _.
+  apply rrm_if; [apply rrm_fail|]. apply rrm_if; [apply rrm_ret; exact I|].
+  destruct (split_last p) as [[pp nm]|]; [|apply rrm_fail].
+  apply rrm_bind with (post1 := fun _ => True); [apply rrm_get_node|]. intros pn _.
+  apply rrm_bind with (post1 := fun _ => True); [apply rrm_if; [apply rrm_ret; exact I|apply IH]|]. intros _ _.
+  apply rrm_bind with (post1 := fun _ => True); [apply rrm_get_node|]. intros pn' _.
+  apply rrm_bind with (post1 := fun r => r_upper r = true); [apply rrm_upper_real|]. intros pr _.
+  apply rrm_bind with (post1 := goodri); [apply rrm_ri_mkdir|]. intros ri Hri. apply rrm_mod_add. exact Hri.
+Qed.
+Lemma rrm_cnu p : rrm (copy_node_up p) (fun _ => True).
+Proof.
+  unfold copy_node_up.
+  apply rrm_bind with (post1 := fun _ => True); [apply rrm_get_node|]. intros n _.
+  apply rrm_if; [apply rrm_ret; exact I|].
+  apply rrm_bind with (post1 := fun _ => True); [apply rrm_stat_node|]. intros st _.
+  assert (Hreg : rrm (copy_regfile_up p) (fun _ => True)).
+  { unfold copy_regfile_up.
+    apply rrm_bind with (post1 := fun _ => True); [apply rrm_get_node|]. intros n0 _.
+    apply rrm_if; [apply rrm_ret; exact I|].
+    destruct (split_last p) as [[pp nm]|]; [|apply rrm_fail].
+    apply rrm_bind with (post1 := fun _ => True); [apply rrm_stat_node|]. intros st0 _.
+    apply rrm_bind with (post1 := fun _ => True); [apply rrm_first_real|]. intros lr _.
+    apply rrm_bind with (post1 := fun _ => True); [apply rrm_get_node|]. intros pn _.
+    apply rrm_bind with (post1 := fun _ => True); [apply rrm_if; [apply rrm_ret; exact I|apply rrm_cud]|]. intros _ _.
+    apply rrm_bind with (post1 := fun _ => True); [apply rrm_get_node|]. intros pn' _.
+    apply rrm_bind with (post1 := fun r => r_upper r = true); [apply rrm_upper_real|]. intros pr _.
+    apply rrm_bind with (post1 := goodri); [apply rrm_ri_create|]. intros ri Hri.
+    apply rrm_bind with (post1 := fun _ => True).
+    { apply rrm_T. intros s. destruct (real_tree s lr) as [[| | |]|]; reflexivity. }
+    intros data _. apply rrm_bind with (post1 := fun _ => True); [apply rrm_mutate|]. intros _ _. apply rrm_mod_add. exact Hri. }
+  destruct st; try exact Hreg.
+  - apply rrm_cud.
+  - unfold copy_symlink_up.
+    apply rrm_bind with (post1 := fun _ => True); [apply rrm_get_node|]. intros n0 _.
+    apply rrm_if; [apply rrm_ret; exact I|].
+    destruct (split_last p) as [[pp nm]|]; [|apply rrm_fail].
+    apply rrm_bind with (post1 := fun _ => True); [apply rrm_first_real|]. intros lr _.
+    apply rrm_bind with (post1 := fun _ => True); [apply rrm_get_node|]. intros pn _.
+    apply rrm_bind with (post1 := fun _ => True); [apply rrm_if; [apply rrm_ret; exact I|apply rrm_cud]|]. intros _ _.
+    apply rrm_bind with (post1 := fun _ => True).
+    { apply rrm_T. intros s. destruct (real_tree s lr) as [[| | |]|]; reflexivity. }
+    intros tg _.
+    apply rrm_bind with (post1 := fun _ => True); [apply rrm_get_node|]. intros pn' _.
+    apply rrm_bind with (post1 := fun r => r_upper r = true); [apply rrm_upper_real|]. intros pr _.
+    apply rrm_bind with (post1 := goodri); [apply rrm_ri_symlink|]. intros ri Hri. apply rrm_mod_add. exact Hri.
+Qed.
+End RR.
+Lemma cnu_keeps_nonwh p s q n : nget q (root s) = Some n -> n_wh n = false ->
+  exists n', nget q (root (snd (copy_node_up p s))) = Some n' /\ n_wh n' = false.
+Proof.
+  apply (rrm_cnu (fun n => n_wh n = false)).
+  - intros ri c m [H _]. exact H.
+  - intros a b _ H Ha. congruence.
+Qed.
+Lemma cnu_keeps_upper p s q n : nget q (root s) = Some n -> in_upper n = true ->
+  exists n', nget q (root (snd (copy_node_up p s))) = Some n' /\ in_upper n' = true.
+Proof.
+  apply (rrm_cnu (fun n => in_upper n = true)).
+  - intros ri c m [_ H]. unfold in_upper, add_upper. cbn [n_reals]. destruct c; exact H.
+  - intros a b H _ Ha. unfold in_upper in *. rewrite <- H. exact Ha.
+Qed.
+
+(* ------------------------------------------------------------------ link *)
+Lemma tget_tupd_del_other (nm : name) : forall (pp : path) U (src : path) c,
+  tget U src = Some c -> is_whT c = false -> is_dirT c = false -> tget U (pp ++ [nm]) = Some Wh ->
+  tget (tupd pp (dir_del nm) U) src = Some c.
+Proof.
+  induction pp as [|a pp IH]; intros U src c Hs Hw Hd Hq; cbn [app tupd] in *.
+  - destruct U as [m x ch| | |]; try discriminate. cbn [tget] in Hq. destruct (afind nm ch) as [y|] eqn:Ey; [|discriminate].
+    inversion Hq; subst y. destruct src as [|k r]; cbn [tget dir_del] in *.
+    + inversion Hs; subst. discriminate.
+    + rewrite afind_adel. destruct (String.eqb k nm) eqn:E.
+      * apply String.eqb_eq in E; subst k. rewrite Ey in Hs. destruct r; cbn [tget] in Hs; [inversion Hs; subst; discriminate|discriminate].
+      * exact Hs.
+  - destruct U as [m x ch| | |]; try discriminate. cbn [tget] in Hq. destruct (afind a ch) as [y|] eqn:Ey; [|discriminate].
+    destruct src as [|k r]; cbn [tget] in *.
+    + inversion Hs; subst. discriminate.
+    + destruct (String.eqb a k) eqn:E.
+      * apply String.eqb_eq in E; subst k. rewrite afind_amap, Ey in *. cbn [option_map]. apply IH; assumption.
+      * rewrite (afind_amap_other _ _ _ _ E). exact Hs.
+Qed.
+
+Definition link_src_ok (src : path) (U : tree) : Prop :=
+  exists c, tget U src = Some c /\ is_dirT c = false /\ is_whT c = false /\ wf c.
+Definition link_leaf (src : path) (s : state) : tree :=
+  match upper s with Some U => match tget U src with Some c => c | None => Wh end | None => Wh end.
+Lemma mk_spec_link (pp : path) (nm : name) sr : r_layer sr = 0%nat ->
+  mk_spec_on (link_src_ok (r_path sr)) pp nm (fun pr => ri_link pr sr nm) (link_leaf (r_path sr)).
+Proof.
+  intros Hs0 pr s U (c & Hc & Hd & Hw & Hwf) Hu Hl Hp HU. unfold link_leaf. rewrite HU, Hc.
+  split; [split; [exact Hd|]; split; [exact Hw|]; split; [exact Hwf|]; intros k r; destruct c; try reflexivity; discriminate|].
+  unfold ri_link, ri_guard, bind, mutate, ret, fail, h_link. rewrite Hu, Hl, Hp, Hs0. cbn [Nat.eqb get_layer]. rewrite HU, Hc.
+  assert (E : match c with Dir _ _ _ => Err EPERM | _ => h_insert pp nm c U end = h_insert pp nm c U) by (destruct c; [discriminate|reflexivity..]).
+  rewrite E. destruct (h_insert pp nm c U) as [U1|e].
+  - eexists. split; [reflexivity|]. unfold set_layer. cbn [upper lowers root]. rewrite HU. auto.
+  - eexists. eexists. split; [reflexivity|]. auto.
+Qed.
+
+Lemma in_upper_same_disk a b (p : path) na nb : Coherent a -> Coherent b -> upper b = upper a -> lowers b = lowers a ->
+  nget p (root a) = Some na -> nget p (root b) = Some nb -> in_upper na = true -> in_upper nb = true.
+Proof.
+  intros HCa HCb Hu Hl Ha Hb Hiu.
+  pose proof HCa as (_ & _ & Ta). pose proof HCb as (_ & _ & Tb).
+  pose proof (Ta _ _ Ha) as Na. pose proof (Tb _ _ Hb) as Nb. cbn [app] in Na, Nb.
+  assert (Hsh : forall i q, shp b i q = shp a i q).
+  { intros i q. unfold shp, ent. destruct i as [|j]; cbn [get_layer]; rewrite ?Hu, ?Hl; reflexivity. }
+  unfold in_upper in Hiu. destruct (n_reals na) as [|ra ras] eqn:Era; [discriminate|].
+  destruct (first_upper_stack a p na ra ras Na Era Hiu) as (_ & _ & rest & Hst).
+  pose proof (ok_hd _ _ _ _ Nb) as Hh. rewrite Hl in Hh. rewrite (lstack_ext (shp a) (shp b) (List.length (lowers a)) p) in Hh; [|intros i p' _; apply Hsh].
+  rewrite Hst in Hh. pose proof (ok_ne _ _ _ _ Nb) as Hne. pose proof (ok_reals _ _ _ _ Nb) as Hr.
+  unfold in_upper. destruct (n_reals nb) as [|rb rbs]; [contradiction|]. cbn in Hh. inversion Hh as [Hl0].
+  pose proof (Forall_inv Hr) as (_ & Hub & _). rewrite Hl0 in Hub. exact Hub.
+Qed.
+
+Lemma cpres_do_link (src pp : path) (nm : name) : cpres (do_link src pp nm).
+Proof.
+  intros s HC. destruct (do_link src pp nm s) as [r s'] eqn:Hrun. cbn [snd]. unfold do_link in Hrun.
+  pose proof HC as ([u Hu] & _).
+  unfold bind at 1 in Hrun. unfold need_upper in Hrun. unfold bind at 1 in Hrun. unfold has_upper in Hrun. rewrite Hu in Hrun. cbn [ret] in Hrun.
+  unfold bind at 1 in Hrun. unfold get_node at 1 in Hrun. destruct (nget src (root s)) as [sn|] eqn:Hsn; [|inversion Hrun; subst; exact HC].
+  unfold bind at 1 in Hrun. unfold get_node at 1 in Hrun. destruct (nget pp (root s)) as [pn|] eqn:Hg; [|inversion Hrun; subst; exact HC].
+  destruct (n_wh sn || n_wh pn) eqn:Ew; [inversion Hrun; subst; exact HC|]. apply orb_false_iff in Ew. destruct Ew as [Ews Ewp].
+  unfold bind at 1 in Hrun. unfold stat_node at 1 in Hrun. destruct (node_stat s sn) as [st|] eqn:Est; [|inversion Hrun; subst; exact HC].
+  destruct (is_dirT st) eqn:Edir; [inversion Hrun; subst; exact HC|].
+  (* copy-up of the source *)
+  unfold bind at 1 in Hrun. destruct (copy_node_up src s) as [rcA sA] eqn:EcuA.
+  destruct (cnu_coherent src s rcA sA HC) as (HCA & SPA & HlA & FrA & HupA); [intros n0 Hn0; rewrite Hsn in Hn0; inversion Hn0; subst; exact Ews|exact EcuA|].
+  destruct rcA as [[]|e]; [|inversion Hrun; subst; exact HCA]. specialize (HupA eq_refl).
+  destruct (cnu_keeps_nonwh src s pp pn Hg Ewp) as (pnA & HgA & EwA). rewrite EcuA in HgA. cbn [snd] in HgA.
+  destruct (cnu_keeps_nonwh src s src sn Hsn Ews) as (snA & HsnA & EwsA). rewrite EcuA in HsnA. cbn [snd] in HsnA.
+  (* copy-up of the new parent *)
+  unfold bind at 1 in Hrun. destruct (copy_node_up pp sA) as [rcB sB] eqn:EcuB.
+  destruct (cnu_coherent pp sA rcB sB HCA) as (HCB & SPB & HlB & FrB & HupB); [intros n0 Hn0; rewrite HgA in Hn0; inversion Hn0; subst; exact EwA|exact EcuB|].
+  destruct rcB as [[]|e]; [|inversion Hrun; subst; exact HCB]. specialize (HupB eq_refl).
+  destruct (cnu_keeps_upper pp sA src snA HsnA (HupA snA HsnA)) as (snB & HsnB & HiuB). rewrite EcuB in HsnB. cbn [snd] in HsnB.
+  destruct (cnu_keeps_nonwh pp sA src snA HsnA EwsA) as (snB' & HsnB' & EwsB). rewrite EcuB in HsnB'. cbn [snd] in HsnB'.
+  rewrite HsnB in HsnB'. inversion HsnB'; subst snB'. clear HsnB'.
+  destruct (cnu_keeps_nonwh pp sA pp pnA HgA EwA) as (pnB & HgB & EwB). rewrite EcuB in HgB. cbn [snd] in HgB.
+  pose proof (HupB pnB HgB) as HiupB.
+  (* the source's backing inode afterwards: a non-directory in the upper layer *)
+  unfold bind at 1 in Hrun. unfold get_node at 1 in Hrun. rewrite HsnB in Hrun.
+  pose proof HCB as ([UB HUB] & HwlB & HCTB). pose proof (HCTB _ _ HsnB) as NsB. cbn [app] in NsB.
+  destruct (first_good_stat sB _ _ snB NsB) as (sr & srs & c & Esr & Ec & _ & Hwc & Hdc & Hpsr).
+  unfold bind at 1 in Hrun. unfold first_real in Hrun. rewrite Esr in Hrun. cbn [ret] in Hrun.
+  pose proof HiuB as Husr. unfold in_upper in Husr. rewrite Esr in Husr.
+  destruct (first_upper_stack sB src snB sr srs NsB Esr Husr) as (Hsr0 & _ & _).
+  rewrite Hsr0 in Ec. unfold ent in Ec. cbn [get_layer] in Ec. rewrite HUB in Ec.
+  assert (Hcd : is_dirT c = false).
+  { rewrite <- Hdc.
+    destruct (same_paths_some s sA src sn SPA Hsn) as (n1 & Hn1 & Hs1). rewrite HsnA in Hn1. inversion Hn1; subst n1.
+    destruct (same_paths_some sA sB src snA SPB HsnA) as (n2 & Hn2 & Hs2). rewrite HsnB in Hn2. inversion Hn2; subst n2.
+    unfold nsig in Hs1, Hs2. injection Hs1 as _ B1. injection Hs2 as _ B2. rewrite Esr in B2. cbn [first_dir] in B2. rewrite B2, B1.
+    pose proof HC as (_ & _ & HCT). destruct (first_good_stat s _ _ sn (HCT _ _ Hsn)) as (r0 & rs0 & t0 & Er0 & _ & Hs0 & _ & Hd0 & _).
+    rewrite Est in Hs0. inversion Hs0; subst t0. rewrite Er0. cbn [first_dir]. rewrite Hd0. exact Edir. }
+  assert (Hcw : is_whT c = false).
+  { rewrite <- Hwc. pose proof (ok_wh _ _ _ _ NsB) as W. rewrite Esr in W. cbn [first_wh] in W. rewrite <- W. exact EwsB. }
+  assert (HQB : link_src_ok (r_path sr) UB).
+  { exists c. rewrite Hpsr. split; [exact Ec|]. split; [exact Hcd|]. split; [exact Hcw|].
+    apply (wf_tget UB (wf_layers_wf sB HwlB 0%nat UB HUB) src c Ec). }
+  (* lookup of the new name *)
+  unfold bind at 1 in Hrun. destruct (lookup_node_ignore_enoent pp nm sB) as [rf s1] eqn:Elk.
+  destruct (lookup_ignore_spec pp nm sB pnB rf s1 HCB HgB EwB Elk) as (HC1 & Hu1 & Hl1 & pn1 & Hg1 & Hw1 & Hld1 & Hfound).
+  destruct rf as [found|e]; [|inversion Hrun; subst; exact HC1].
+  pose proof (in_upper_same_disk sB s1 pp pnB pn1 HCB HC1 Hu1 Hl1 HgB Hg1 HiupB) as Hiu1.
+  assert (HQ1 : forall u2, upper s1 = Some u2 -> link_src_ok (r_path sr) u2 /\
+            (forall m x ch, tget u2 pp = Some (Dir m x ch) -> afind nm ch = Some Wh -> link_src_ok (r_path sr) (tupd pp (dir_del nm) u2))).
+  { intros u2 Hu2. rewrite Hu1, HUB in Hu2. inversion Hu2; subst u2. split; [exact HQB|].
+    intros m x ch Etg Enm. destruct HQB as (c' & A & B & C & D). exists c'. split; [|auto].
+    apply tget_tupd_del_other; auto. rewrite (tget_snoc UB pp nm), Etg. exact Enm. }
+  destruct found as [q|].
+  - destruct Hfound as (-> & cq & Hcq). unfold bind at 1 in Hrun. unfold get_node at 1 in Hrun.
+    rewrite (nget_snoc pp nm (root s1) pn1 cq Hg1 Hcq) in Hrun.
+    destruct (n_wh cq) eqn:Ewc; cbn [negb] in Hrun; [|inversion Hrun; subst; exact HC1].
+    assert (Hrun' : make_body pp nm (fun pr => ri_link pr sr nm) (in_upper cq) true s1 = (r, s')) by exact Hrun.
+    apply (make_body_coherent (link_src_ok (r_path sr)) pp nm _ (link_leaf (r_path sr)) (in_upper cq) true s1 pn1 r s'
+             (mk_spec_link pp nm sr Hsr0) HC1 Hg1 Hiu1 Hld1); [eauto|exact HQ1|exact Hrun'].
+  - assert (Hrun' : make_body pp nm (fun pr => ri_link pr sr nm) false false s1 = (r, s')) by exact Hrun.
+    apply (make_body_coherent (link_src_ok (r_path sr)) pp nm _ (link_leaf (r_path sr)) false false s1 pn1 r s'
+             (mk_spec_link pp nm sr Hsr0) HC1 Hg1 Hiu1 Hld1); [exact Hfound|exact HQ1|exact Hrun'].
+Qed.
+Lemma cpres_link src dst : cpres (step (OLink src dst)).
+Proof.
+  cbn [step]. apply cpres_bind; [apply cpres_walk|]. intros _. apply cpres_with_parent. intros pp nm.
+  apply cpres_bind; [apply cpres_node_checked|]. intros _.
+  apply cpres_bind; [apply cpres_sync_parent|]. intros _.
+  apply cpres_bind; [apply cpres_do_link|]. intros _. apply cpres_entry_of.
 Qed.
